@@ -5,6 +5,8 @@ CONSTANTS
   MaxSec = 2
   Timeouts = TRUE
   Handoff = TRUE
+  Eager = FALSE
+  Fifo = FALSE
   MaxWait = 2
   UniqueVals = TRUE
   Ghost = TRUE
